@@ -559,8 +559,11 @@ class Interp(object):
 
     def run_retriable(self, name, st, data, ctx, extra, depth):
         counters = {}
+        self._entry_seq = getattr(self, "_entry_seq", 0) + 1
+        entry = self._entry_seq
         while True:
             try:
+                self._current_entry = entry          # (nested states change it; restore before every attempt of this one)
                 return self.run_work(name, st, data, ctx, extra, depth)
             except StateError as e:
                 handled = False
@@ -606,9 +609,13 @@ class Interp(object):
             self.requests.append(dict(t=self.t, fn=fn, payload=copy.deepcopy(eff), state=name))
             if fn in getattr(self.task, "stateful", ()):
                 if contains_any(eff):
-                    # the behaviour of such a task depends on which payloads it has seen; a payload that carries an implementation-defined
-                    # text (the Cause of a caught error quotes history event ids) is a different payload on every attempt
-                    raise Unspecified("stateful task called with a payload containing implementation-defined text")
+                    # the behaviour of such a task depends on which payloads it has seen.  A payload that carries an implementation-defined
+                    # text (the Cause of a caught error quotes history event ids) is the same payload for the retries of one state entry,
+                    # but a different one when the state is entered again (outer retry, loop, another iteration)
+                    seen = self.__dict__.setdefault("_any_payload_entries", {})
+                    k2 = (fn, json.dumps(eff, sort_keys=True, default=repr))
+                    if seen.setdefault(k2, getattr(self, "_current_entry", None)) != getattr(self, "_current_entry", None):
+                        raise Unspecified("stateful task called again, from another state entry, with a payload containing implementation-defined text")
                 self.stateful_calls.append((fn, json.dumps(eff, sort_keys=True, default=repr)))
             r = self.task(fn, eff)
             latency = 0.0
